@@ -34,7 +34,112 @@ Fixpoint guardedb (s : state) (ops : list op) : bool :=
   | o :: rest => gas_okb s && op_okb o && guardedb (step s o).2 rest
   end.
 
-Record case := { c_rot : rotation ; c_ops : list op ; c_obs : list out }.
+(* ---------- what must not influence the root hash ----------
+   [strip]: the operation sequence without reads, existence checks, versioned reads and without
+   the sessions that end up discarded (explicitly, or implicitly by a new BeginTx / BlockCommit /
+   Fresh / Reopen, or never closed).  A committed session is re-emitted as one contiguous
+   BeginTx ; its writes ; CommitTx at the place of its CommitTx.  [pend] = the writes of the
+   currently open session.  The harness runs a second REAL store on [strip ops] and compares the
+   root hash after every commit; props/C09.v proves that the model's tree calls agree. *)
+Fixpoint strip_aux (pend : option (list op)) (ops : list op) : list op :=
+  match ops with
+  | [] => []
+  | o :: rest =>
+      match o with
+      | Get _ | Exists_ _ | GetVersioned _ _ => strip_aux pend rest
+      | BeginTx => strip_aux (Some []) rest
+      | DiscardTx => strip_aux None rest
+      | CommitTx =>
+          match pend with
+          | Some p => BeginTx :: p ++ CommitTx :: strip_aux None rest
+          | None => strip_aux None rest
+          end
+      | Set_ _ _ | Delete _ =>
+          match pend with
+          | Some p => strip_aux (Some (p ++ [o])) rest
+          | None => o :: strip_aux None rest
+          end
+      | Write => Write :: strip_aux pend rest
+      | BlockCommit | Fresh _ | Reopen => o :: strip_aux None rest
+      end
+  end.
+Definition strip (ops : list op) : list op := strip_aux None ops.
+
+Definition op_eqb (a b : op) : bool :=
+  match a, b with
+  | Get x, Get y | Exists_ x, Exists_ y | Delete x, Delete y => N.eqb x y
+  | Set_ x v, Set_ y w => N.eqb x y && val_eqb v w
+  | BeginTx, BeginTx | CommitTx, CommitTx | DiscardTx, DiscardTx | Write, Write
+  | BlockCommit, BlockCommit | Reopen, Reopen => true
+  | GetVersioned i x, GetVersioned j y => (i =? j) && N.eqb x y
+  | Fresh None, Fresh None => true
+  | Fresh (Some i), Fresh (Some j) => i =? j
+  | _, _ => false
+  end.
+Fixpoint ops_eqb (a b : list op) : bool :=
+  match a, b with
+  | [], [] => true
+  | x :: a', y :: b' => op_eqb x y && ops_eqb a' b'
+  | _, _ => false
+  end.
+
+(* ---------- the calls the model makes on the IAVL tree, in order ----------
+   [wlog] grows by the calls of every step; a reopen throws the uncommitted working tree away,
+   which the harness' tree twin has to do as well, so it is marked. *)
+Inductive tcall := CSet (k : key) (v : val) | CRemove (k : key) | CSave | CReopen.
+Definition tcall_of (t : treeop) : tcall :=
+  match t with TSet k v => CSet k v | TRemove k => CRemove k | TSave => CSave end.
+Fixpoint tree_calls (s : state) (ops : list op) : list tcall :=
+  match ops with
+  | [] => []
+  | o :: rest =>
+      let s' := (step s o).2 in
+      map tcall_of (drop (length (wlog s)) (wlog s'))
+        ++ (match o with Reopen => [CReopen] | _ => [] end) ++ tree_calls s' rest
+  end.
+Definition tcall_eqb (a b : tcall) : bool :=
+  match a, b with
+  | CSet x v, CSet y w => N.eqb x y && val_eqb v w
+  | CRemove x, CRemove y => N.eqb x y
+  | CSave, CSave | CReopen, CReopen => true
+  | _, _ => false
+  end.
+Fixpoint tcalls_eqb (a b : list tcall) : bool :=
+  match a, b with
+  | [], [] => true
+  | x :: a', y :: b' => tcall_eqb x y && tcalls_eqb a' b'
+  | _, _ => false
+  end.
+
+(* [c_strip]: the sequence the harness ran on the second real store (None: no twin run);
+   [c_tlog]: the tree calls the harness fed to a bare real ChainState, whose root hashes it
+   compared with the store's (None: not done, e.g. a small gas limit). *)
+Record case := { c_rot : rotation ; c_ops : list op ; c_obs : list out ;
+                 c_strip : option (list op) ; c_tlog : option (list tcall) }.
+
+(* indexes of the cases whose twin sequence is not [strip] of the sequence *)
+Fixpoint strip_mismatches (i : nat) (cs : list case) : list nat :=
+  match cs with
+  | [] => []
+  | c :: rest =>
+      match c_strip c with
+      | Some l => if ops_eqb (strip (c_ops c)) l then strip_mismatches (S i) rest
+                  else i :: strip_mismatches (S i) rest
+      | None => strip_mismatches (S i) rest
+      end
+  end.
+
+(* indexes of the cases whose tree-call list is not the model's (content AND order) *)
+Fixpoint tlog_mismatches (i : nat) (cs : list case) : list nat :=
+  match cs with
+  | [] => []
+  | c :: rest =>
+      match c_tlog c with
+      | Some l => if tcalls_eqb (tree_calls (init (c_rot c)) (c_ops c)) l
+                  then tlog_mismatches (S i) rest else i :: tlog_mismatches (S i) rest
+      | None => tlog_mismatches (S i) rest
+      end
+  end.
 
 (* index of the first differing output, if any *)
 Fixpoint first_diff (i : nat) (a b : list out) : option nat :=
@@ -86,6 +191,7 @@ Definition count_guarded (cs : list case) : nat :=
   length (filter (fun c => guardedb (init (c_rot c)) (c_ops c) = true) cs).
 
 (* flat printing helpers: the check greps these lines *)
+Definition flat1 (l : list nat) : list Z := map Z.of_nat l.
 Definition flat2 (l : list (nat * nat)) : list Z :=
   flat_map (fun '(a, b) => [Z.of_nat a; Z.of_nat b]) l.
 Definition flat3 (l : list (nat * nat * nat)) : list Z :=
